@@ -453,6 +453,21 @@ def rule_a(chk, wr, buf, is_file):
     p = Q.escapes(g, [g.entry], lambda n: n in accounted or n in sends, avoid_edge=gone, exc=())
     chk.ob('a', wr.ref, 'no path drops the payload before handing it to the OS (other than for a connection that is already gone)', p is None,
            loc(wr, wr.node), path=pat.path_lines(p) if p else None, discr='before-send')
+    # the payload may have to be converted before it is handed to the OS (File: text → bytes): only text is converted, and a failed conversion is a failed write (it
+    # must not leave the routine as an exception: the payload was popped and would be gone without an error event, with the rest of the buffer still going out)
+    from sa.cfg import handler_names as _hn
+    for n in g.nodes:
+        if n.kind != 'stmt':
+            continue
+        encs = [c for c in calls_in(n.ast) if isinstance(c.func, ast.Attribute) and c.func.attr == 'encode' and src(c.func.value) == dv]
+        for c in encs:
+            q = pat.guarded_by(g, n, pat.test_edge(lambda tt, pol: pol == 'T' and src(tt).replace(' ', '') == f'isinstance({dv},str)'))
+            chk.ob('a', wr.ref, 'only a text payload is encoded (bytearray and memoryview payloads have no encode(): they go out as they are)', q is None, loc(wr, c),
+                   path=pat.path_lines(q) if q else None, discr='encode-text-only')
+            hs = [e.dst for e in n.succ if e.kind == 'x' and e.dst.kind == 'except']
+            caught = any(_hn(h.ast) is None or set(_hn(h.ast)) & {'UnicodeError', 'UnicodeEncodeError', 'ValueError', 'Exception'} for h in hs)
+            chk.ob('a', wr.ref, 'text the encoding cannot express is handled as a failed write (caught by the clause that reports and closes), not raised out of the routine '
+                                'with the payload lost', caught, loc(wr, c), discr='encode-failure-handled')
     # OSError paths by errno class
     xedges = [e for e in sends[0].succ if e.kind == 'x' and e.exc == 'OSError' and e.dst.kind == 'except']
     chk.ob('a', wr.ref, 'a failing send is caught in the write routine', bool(xedges), loc(wr, sends[0].ast), discr='oserror-caught')
